@@ -79,6 +79,12 @@ def main():
     for f in ('patch.diff', 'demo.cpp', 'demo.sh', 'notes.txt'):
         if os.path.exists(os.path.join(src, f)):
             shutil.copy(os.path.join(src, f), os.path.join(out, f))
+    old = os.path.join(out, 'meta.json')
+    if os.path.exists(old):
+        try:
+            meta['summary'] = json.load(open(old)).get('summary') or ''
+        except Exception:
+            pass
     json.dump(meta, open(os.path.join(out, 'meta.json'), 'w'), indent=1)
     print(json.dumps({k: meta[k] for k in ('property', 'name', 'confirmed', 'detected')}))
     print(json.dumps(meta['steps'], indent=1)[:2500])
